@@ -146,3 +146,36 @@ pub fn eval_interop(_op: &str, input: &mut Value) -> OpResult {
     "client_methods": cc["client_methods"], "routes": ss["routes"],
   }))
 }
+
+/// C18: one spec under the default settings (client-mod) and under a variant (mode, cfg): item facts of both
+pub fn eval_flags(_op: &str, input: &mut Value) -> OpResult {
+  let mut bi = input.clone();
+  bi["mode"] = json!("client-mod");
+  bi["cfg"] = input.get("base_cfg").cloned().unwrap_or_else(|| json!({}));
+  let (bf, _) = match k_gen::generate(&bi) {
+    Ok(x) => x,
+    Err(e) => return Ok(json!({"err": format!("base: {e}")})),
+  };
+  let (vf, _) = match k_gen::generate(input) {
+    Ok(x) => x,
+    Err(e) => return Ok(json!({"err": format!("variant: {e}")})),
+  };
+  let slim = |code: &String| -> Value {
+    let f = facts::file_facts(code);
+    let items: Vec<Value> = f["items"].as_array().into_iter().flatten().map(|i| {
+      let mut o = i.clone();
+      if let Some(ms) = o.get_mut("methods").and_then(Value::as_array_mut) {
+        for m in ms { if let Some(obj) = m.as_object_mut() { obj.remove("docs"); } }
+      }
+      if let Some(obj) = o.as_object_mut() { obj.remove("docs"); if obj.get("kind").and_then(Value::as_str) == Some("fn") { obj.remove("body"); } }
+      o
+    }).collect();
+    json!({"items": items, "parse_error": f.get("parse_error").cloned().unwrap_or(Value::Null), "inner_attrs": f["inner_attrs"]})
+  };
+  let types_key = if vf.contains_key("types") { "types" } else { "client" };
+  Ok(json!({
+    "base": slim(bf.get("types").ok_or("no base types")?),
+    "var": vf.get(types_key).map(slim).unwrap_or(Value::Null),
+    "var_other": vf.iter().filter(|(k, _)| **k != types_key && **k != "mod").map(|(k, v)| ((*k).to_string(), slim(v))).collect::<serde_json::Map<_, _>>(),
+  }))
+}
